@@ -451,7 +451,7 @@ class LoopProgressInterp(hirai.Interp):
             return None
         import sys
         sys.setrecursionlimit(max(sys.getrecursionlimit(), 20000))
-        for u in list(edges):
+        for u in (list(edges) if n.get("src") != "ForLoop" else []):     # for loops are driven by their (finite) iterator
             if u not in color:
                 r = dfs(u)
                 if r is not None:
